@@ -288,8 +288,13 @@ impl Qcow2Header {
             return Err(format!("qcow2 refcount_order {o} is invalid").into());
         }
 
-        // the compression type field exists only in headers longer than 104 bytes
-        if header.header_length > 104 && header.compression_type != 0 {
+        // the compression type field exists only in headers longer than 104
+        // bytes: in a 104-byte header that byte belongs to the first extension
+        if header.header_length <= 104 {
+            header.compression_type = 0;
+        }
+
+        if header.compression_type != 0 {
             let t = header.compression_type;
             return Err(format!("qcow2 compression type {t} is not supported").into());
         }
